@@ -19,7 +19,10 @@ RULE = ("generated expressions (C04 grammar, no /name/ or & inside) on 1-12 gene
         "distinct (relation, expression text) pairs whose column is present for at least one input")
 
 MODES = ("spelling", "spelling", "spelling", "filter", "sort", "group", "split", "macro", "cache")
-PATTERNS = ["a", "^a", "b$", "[a-c]+", "(a)(b)?", "x|y", "[0-9]+", "h(el+)o", "é", "(", "a.c"]
+PATTERNS = ["a", "^a", "b$", "[a-c]+", "(a)(b)?", "x|y", "[0-9]+", "h(el+)o", "é", "(", "a.c",
+            # patterns whose compiled program is large (counted repetition of a Unicode class), and one that is too large for any limit
+            "^\\w{32}$", "id=(\\w{40});", "[a-z]{500}", "(?i)héllo", "\\d{3}-\\d{4}", "^$", ".*"]
+HEAVY = ("^\\w{32}$", "id=(\\w{40});")
 
 
 def plain_scope():
@@ -49,8 +52,9 @@ def gen_unit(rng):
     elif mode == "cache":
         hist = []
         pats = rng.sample(PATTERNS, rng.choice((1, 2, 3)))
-        for _ in range(rng.choice((2, 5, 12, 40))):
-            hist.append({"s": rng.choice(eg.WORDS + eg.NONASCII + ["hello", "hellllo", "abc", "123"]), "p": rng.choice(pats)})
+        for _ in range(rng.choice((2, 5, 12, 40)) if not any(p in HEAVY for p in pats) else rng.choice((2, 3, 5))):
+            hist.append({"s": rng.choice(eg.WORDS + eg.NONASCII + ["hello", "hellllo", "abc", "123", "0123456789abcdef0123456789abcdef", "id=" + "x" * 40 + ";",
+                                                                   "555-1234", "HÉLLO", "z" * 120]), "p": rng.choice(pats)})
         u["input"] = "\n".join(jm.dumps(v) for v in hist).encode()
         u["npatterns"] = len(pats)
     else:
